@@ -102,6 +102,23 @@ func c03Run(j *rt.Job, seed uint64, r *rt.Rec) {
 			d = dilLibKey(s)
 		}
 		var ref *dilref.Key
+		if ki == 0 {
+			// dense message-length sweep: every length in a window that moves with the batch number,
+			// so that one run covers 0..(20*batches-1) completely
+			lo := j.Int("batch") * 20
+			for l := lo; l < lo+20; l++ {
+				cs := c03Case{"c03", rt.Hex(s[:]), "", l, l & 0xFF}
+				r.Eval(1)
+				if why := c03One(d, cs.msg()); why != "" {
+					r.Violate("C03/roundtrip", why+fmt.Sprintf(" (message length %d)", l), cs, "", "")
+					return
+				}
+				r.Count("roundtrips_ok", 1)
+				r.Count("length_sweep", 1)
+				r.Distinct(cs.Seed, cs.MLen, cs.Fill)
+			}
+			r.Observe("length_sweep_windows", fmt.Sprintf("[%05d,%05d)", lo, lo+20))
+		}
 		for m := 0; m < 12; m++ {
 			var cs c03Case
 			switch {
